@@ -382,6 +382,8 @@ type Fake struct {
 	ReloadFails int
 	pending     map[string]string // transactions of `set ssl cert`
 	LoadErr     error
+	// lastReloadFailed: the last reload left the old worker running
+	lastReloadFailed bool
 }
 
 // New creates a fake that loads cfgdir on reload.
@@ -406,13 +408,24 @@ func (f *Fake) Reload() error {
 	f.Reloads++
 	if f.ReloadFails > 0 {
 		f.ReloadFails--
+		f.lastReloadFailed = true
 		return fmt.Errorf("scripted reload failure")
 	}
 	st, err := LoadDir(f.CfgDir)
+	if err == nil {
+		// HAProxy refuses a configuration that names two servers of a backend alike
+		for _, b := range st.Backends {
+			if len(b.DupNames) > 0 {
+				err = fmt.Errorf("backend %s: server name(s) %v declared twice", b.Name, b.DupNames)
+			}
+		}
+	}
 	if err != nil {
 		f.LoadErr = err
+		f.lastReloadFailed = true
 		return err
 	}
+	f.lastReloadFailed = false
 	f.St = st
 	f.pending = map[string]string{}
 	return nil
